@@ -1,3 +1,305 @@
-/-! C05 property theorems — stub (not built yet). -/
+import TTModel.C05_SiteModel
+import TTProofs.Lemmas.Sums
+import TTProofs.Lemmas.ScalarReal
+import Mathlib.Algebra.Order.Field.Basic
+import Mathlib.Algebra.Order.BigOperators.Ring.Finset
+import Mathlib.Algebra.BigOperators.Field
+import Mathlib.Tactic.FieldSimp
+import Mathlib.Tactic.Ring
+import Mathlib.Tactic.Positivity
+import Mathlib.Tactic.Linarith
+/-!
+# C05 — among-site rate models keep the mean substitution rate at one
+
+Theorems about the executable model `TTModel/C05_SiteModel.lean` (which mirrors
+`torchtree/evolution/site_model.py`), instantiated at an arbitrary field / ordered field / `ℝ`.
+`target mu` is what the property asks the mean rate to be: `1`, or the supplied relative rate.
+-/
 namespace TTProps.C05
+open TT TT.C05
+
+/-- the value the mean rate must have: one, or the relative rate `mu` when supplied -/
+def target {R : Type} [One R] (mu : Option R) : R := mu.getD 1
+
+/-! ## any field: sums -/
+section field
+variable {R : Type} [Field R]
+
+/-- **mean_rate (abstract `inverse_cdf`)**: whatever vector `raw` the subclass's `inverse_cdf`
+returns and whatever the category probabilities are, after the normalisation of
+`update_rates` the probability-weighted mean rate is `1` (or `mu`), provided the normaliser
+`Σ raw·probs` is non-zero. -/
+theorem mean_rate_normalise {n : Nat} (raw probs : Fin n → R) (mu : Option R)
+    (h : normaliser raw probs ≠ 0) :
+    sumFin (fun i => probs i * normalise raw probs mu i) = target mu := by
+  have hN : normaliser raw probs = ∑ i, raw i * probs i := sumFin_eq_sum _
+  rw [sumFin_eq_sum]
+  cases mu with
+  | none =>
+    have e : ∀ i, probs i * normalise raw probs none i = raw i * probs i / normaliser raw probs := by
+      intro i; simp only [normalise, applyMu]; ring
+    simp only [e, ← Finset.sum_div, target, Option.getD_none]
+    rw [← hN]; exact div_self h
+  | some m =>
+    have e : ∀ i, probs i * normalise raw probs (some m) i
+        = raw i * probs i / normaliser raw probs * m := by
+      intro i; simp only [normalise, applyMu]; ring
+    simp only [e, ← Finset.sum_mul, ← Finset.sum_div, target, Option.getD_some]
+    rw [← hN, div_self h, one_mul]
+
+theorem mean_rate_discretized (K : Nat) (raw : Fin K → R) (mu : Option R)
+    (h : normaliser raw (probsPlain K) ≠ 0) :
+    (discretized K raw mu).meanRate = target mu :=
+  mean_rate_normalise raw (probsPlain K) mu h
+
+theorem mean_rate_discretizedInv (K : Nat) (p : R) (raw : Fin (K + 1) → R) (mu : Option R)
+    (h : normaliser raw (probsInv K p) ≠ 0) :
+    (discretizedInv K p raw mu).meanRate = target mu :=
+  mean_rate_normalise raw (probsInv K p) mu h
+
+theorem mean_rate_constant (mu : Option R) : (constant mu).meanRate = target mu := by
+  cases mu <;> simp [constant, SM.meanRate, sumFin_eq_sum, target]
+
+/-- `InvariantSiteModel`: `p·0 + (1-p)·(1/(1-p))·mu = mu` for every `p ≠ 1` -/
+theorem mean_rate_invariant (p : R) (mu : Option R) (hp : p ≠ 1) :
+    (invariant p mu).meanRate = target mu := by
+  have h1 : (1 : R) - p ≠ 0 := sub_ne_zero.mpr (Ne.symm hp)
+  cases mu with
+  | none =>
+    simp [invariant, SM.meanRate, sumFin_eq_sum, target, applyMu, Fin.sum_univ_succ]
+    field_simp
+  | some m =>
+    simp [invariant, SM.meanRate, sumFin_eq_sum, target, applyMu, Fin.sum_univ_succ]
+    field_simp
+
+theorem probs_sum_one_constant (mu : Option R) : (constant mu).probSum = 1 := by
+  simp [constant, SM.probSum, sumFin_eq_sum]
+
+theorem probs_sum_one_invariant (p : R) (mu : Option R) : (invariant p mu).probSum = 1 := by
+  simp [invariant, SM.probSum, sumFin_eq_sum, Fin.sum_univ_succ]
+
+theorem probs_sum_one_discretized (K : Nat) (hK : (K : R) ≠ 0) (raw : Fin K → R) (mu : Option R) :
+    (discretized K raw mu).probSum = 1 := by
+  simp only [discretized, SM.probSum, sumFin_eq_sum, probsPlain, Finset.sum_const,
+    Finset.card_univ, Fintype.card_fin, nsmul_eq_mul]
+  exact mul_one_div_cancel hK
+
+theorem probs_sum_one_discretizedInv (K : Nat) (hK : (K : R) ≠ 0) (p : R) (raw : Fin (K + 1) → R)
+    (mu : Option R) : (discretizedInv K p raw mu).probSum = 1 := by
+  simp only [discretizedInv, SM.probSum, sumFin_eq_sum, probsInv, Fin.sum_univ_succ,
+    Fin.cases_zero, Fin.cases_succ, Finset.sum_const, Finset.card_univ, Fintype.card_fin,
+    nsmul_eq_mul]
+  field_simp
+  ring
+
+/-- **invariant_rate_zero_prob_p** (invariant model): category 0 has rate exactly zero and
+probability exactly the invariant proportion, with or without `mu` -/
+theorem invariant_rate_zero_prob_p_invariant (p : R) (mu : Option R) :
+    (invariant p mu).rates (0 : Fin 2) = 0 ∧ (invariant p mu).probs (0 : Fin 2) = p := by
+  cases mu <;> simp [invariant, applyMu]
+
+/-- **invariant_rate_zero_prob_p** (discretised model): if the subclass's `inverse_cdf` puts a
+zero in front (as `WeibullSiteModel.inverse_cdf` does), category 0 has rate zero and
+probability `p` after normalisation and scaling -/
+theorem invariant_rate_zero_prob_p_discretizedInv (K : Nat) (p : R) (raw : Fin (K + 1) → R)
+    (mu : Option R) (h0 : raw 0 = 0) :
+    (discretizedInv K p raw mu).rates (0 : Fin (K + 1)) = 0 ∧
+      (discretizedInv K p raw mu).probs (0 : Fin (K + 1)) = p := by
+  cases mu <;> simp [discretizedInv, normalise, applyMu, probsInv, h0]
+
+end field
+
+/-! ## ordered fields: signs -/
+section ordered
+variable {R : Type} [Field R] [LinearOrder R] [IsStrictOrderedRing R]
+
+theorem natCast_ne_zero_of_pos {K : Nat} (hK : 0 < K) : (K : R) ≠ 0 :=
+  Nat.cast_ne_zero.mpr (Nat.pos_iff_ne_zero.mp hK)
+
+/-- the median quantiles `(2i+1)/(2K)` lie strictly inside `(0,1)` -/
+theorem quantile_mem (K : Nat) (i : Fin K) :
+    0 < quantile (α := R) K i ∧ quantile (α := R) K i < 1 := by
+  have hi : ((i.val : Nat) : R) + 1 ≤ (K : R) := by exact_mod_cast i.isLt
+  have hi0 : (0 : R) ≤ ((i.val : Nat) : R) := Nat.cast_nonneg _
+  have hK : (0 : R) < (K : R) := by linarith
+  unfold quantile two
+  constructor
+  · apply div_pos <;> linarith
+  · rw [div_lt_one (by linarith)]; linarith
+
+theorem applyMu_nonneg (mu : Option R) (hmu : ∀ m ∈ mu, 0 ≤ m) {r : R} (hr : 0 ≤ r) :
+    0 ≤ applyMu mu r := by
+  cases mu with
+  | none => exact hr
+  | some m => exact mul_nonneg hr (hmu m rfl)
+
+/-- **rates_nonneg (abstract `inverse_cdf`)**: if `inverse_cdf ≥ 0`, the category probabilities
+are non-negative and `mu ≥ 0`, every normalised rate is non-negative -/
+theorem rates_nonneg_normalise {n : Nat} (raw probs : Fin n → R) (mu : Option R)
+    (hraw : ∀ i, 0 ≤ raw i) (hprobs : ∀ i, 0 ≤ probs i) (hmu : ∀ m ∈ mu, 0 ≤ m) (i : Fin n) :
+    0 ≤ normalise raw probs mu i := by
+  apply applyMu_nonneg mu hmu
+  apply div_nonneg (hraw i)
+  unfold normaliser
+  rw [sumFin_eq_sum]
+  exact Finset.sum_nonneg fun j _ => mul_nonneg (hraw j) (hprobs j)
+
+theorem probs_nonneg_constant (mu : Option R) (i) : 0 ≤ (constant mu).probs i := by
+  simp [constant]
+
+theorem probs_nonneg_invariant (p : R) (mu : Option R) (h0 : 0 ≤ p) (h1 : p ≤ 1) (i) :
+    0 ≤ (invariant p mu).probs i := by
+  refine Fin.cases ?_ (fun j => ?_) i
+  · simpa [invariant] using h0
+  · simpa [invariant] using h1
+
+theorem probs_nonneg_plain (K : Nat) (i : Fin K) : 0 ≤ probsPlain (α := R) K i := by
+  unfold probsPlain; positivity
+
+theorem probs_nonneg_inv (K : Nat) (p : R) (h0 : 0 ≤ p) (h1 : p ≤ 1) (i : Fin (K + 1)) :
+    0 ≤ probsInv K p i := by
+  refine Fin.cases ?_ (fun j => ?_) i
+  · simpa [probsInv] using h0
+  · have : (0 : R) ≤ 1 - p := by linarith
+    simp only [probsInv, Fin.cases_succ]; positivity
+
+theorem rates_nonneg_constant (mu : Option R) (hmu : ∀ m ∈ mu, 0 ≤ m) (i) :
+    0 ≤ (constant mu).rates i := by
+  cases mu with
+  | none => simp [constant]
+  | some m => simpa [constant] using hmu m rfl
+
+theorem rates_nonneg_invariant (p : R) (mu : Option R) (h1 : p ≤ 1) (hmu : ∀ m ∈ mu, 0 ≤ m) (i) :
+    0 ≤ (invariant p mu).rates i := by
+  have : (0 : R) ≤ 1 - p := by linarith
+  refine Fin.cases ?_ (fun j => ?_) i
+  · exact applyMu_nonneg mu hmu (by simp)
+  · apply applyMu_nonneg mu hmu
+    simp only [Fin.cases_succ]; positivity
+
+end ordered
+
+/-! ## `ℝ`: the Weibull instance -/
+section weibull
+
+theorem weibullIcdf_pos (shape q : ℝ) (h0 : 0 < q) (h1 : q < 1) : 0 < weibullIcdf shape q := by
+  unfold weibullIcdf
+  simp only [trans_pow_real, trans_log_real]
+  apply Real.rpow_pos_of_pos
+  have : Real.log (1 - q) < 0 := Real.log_neg (by linarith) (by linarith)
+  linarith
+
+theorem weibullRaw_pos (K : Nat) (shape : ℝ) (i : Fin K) : 0 < weibullRaw K shape i :=
+  weibullIcdf_pos _ _ (quantile_mem K i).1 (quantile_mem K i).2
+
+theorem weibullRawInv_nonneg (K : Nat) (shape : ℝ) (i : Fin (K + 1)) :
+    0 ≤ weibullRawInv K shape i := by
+  refine Fin.cases ?_ (fun j => ?_) i
+  · simp [weibullRawInv]
+  · simpa [weibullRawInv] using (weibullRaw_pos K shape j).le
+
+/-- **weibull_normaliser_pos**: for `K ≥ 1` (and, with an invariant category, `p < 1`) the
+normaliser `Σ raw·probs` of the Weibull site model is strictly positive — for every real
+`shape` (in particular all `shape > 0`), so the hypothesis of `mean_rate` is always met. -/
+theorem weibull_normaliser_pos_plain (K : Nat) (hK : 0 < K) (shape : ℝ) :
+    0 < normaliser (weibullRaw K shape) (probsPlain K) := by
+  unfold normaliser
+  rw [sumFin_eq_sum]
+  have : Nonempty (Fin K) := ⟨⟨0, hK⟩⟩
+  apply Finset.sum_pos _ Finset.univ_nonempty
+  intro i _
+  have hKr : (0 : ℝ) < (K : ℝ) := by exact_mod_cast hK
+  exact mul_pos (weibullRaw_pos K shape i) (by unfold probsPlain; positivity)
+
+theorem weibull_normaliser_pos_inv (K : Nat) (hK : 0 < K) (shape p : ℝ) (hp : p < 1) :
+    0 < normaliser (weibullRawInv K shape) (probsInv K p) := by
+  unfold normaliser
+  rw [sumFin_eq_sum, Fin.sum_univ_succ]
+  simp only [weibullRawInv, probsInv, Fin.cases_zero, Fin.cases_succ, zero_mul, zero_add]
+  have : Nonempty (Fin K) := ⟨⟨0, hK⟩⟩
+  apply Finset.sum_pos _ Finset.univ_nonempty
+  intro i _
+  have hKr : (0 : ℝ) < (K : ℝ) := by exact_mod_cast hK
+  have : (0 : ℝ) < 1 - p := by linarith
+  exact mul_pos (weibullRaw_pos K shape i) (by positivity)
+
+/-- admissible invariant proportion: absent, or in `[0,1)` -/
+def InvOk (inv : Option ℝ) : Prop := ∀ p ∈ inv, 0 ≤ p ∧ p < 1
+/-- admissible relative rate: absent, or non-negative -/
+def MuOk (mu : Option ℝ) : Prop := ∀ m ∈ mu, 0 ≤ m
+
+theorem weibull_normaliser_pos (K : Nat) (hK : 0 < K) (shape : ℝ) (inv : Option ℝ) (hinv : InvOk inv) :
+    match inv with
+    | none => 0 < normaliser (weibullRaw K shape) (probsPlain K)
+    | some p => 0 < normaliser (weibullRawInv K shape) (probsInv K p) := by
+  cases inv with
+  | none => exact weibull_normaliser_pos_plain K hK shape
+  | some p => exact weibull_normaliser_pos_inv K hK shape p (hinv p rfl).2
+
+/-- **mean_rate**: `WeibullSiteModel` with any `K ≥ 1`, any shape, any admissible invariant
+proportion and any `mu`: `Σ_k p_k r_k = 1` (or `mu`). No side condition left. -/
+theorem mean_rate (K : Nat) (hK : 0 < K) (shape : ℝ) (inv mu : Option ℝ) (hinv : InvOk inv) :
+    (weibull K shape inv mu).meanRate = target mu := by
+  cases inv with
+  | none => exact mean_rate_discretized K _ mu (weibull_normaliser_pos_plain K hK shape).ne'
+  | some p =>
+    exact mean_rate_discretizedInv K p _ mu (weibull_normaliser_pos_inv K hK shape p (hinv p rfl).2).ne'
+
+/-- **probs_sum_one** for the Weibull site model -/
+theorem probs_sum_one (K : Nat) (hK : 0 < K) (shape : ℝ) (inv mu : Option ℝ) :
+    (weibull K shape inv mu).probSum = 1 := by
+  cases inv with
+  | none => exact probs_sum_one_discretized K (natCast_ne_zero_of_pos hK) _ mu
+  | some p => exact probs_sum_one_discretizedInv K (natCast_ne_zero_of_pos hK) p _ mu
+
+/-- **probs_nonneg** for the Weibull site model -/
+theorem probs_nonneg (K : Nat) (shape : ℝ) (inv mu : Option ℝ) (hinv : InvOk inv) (i) :
+    0 ≤ (weibull K shape inv mu).probs i := by
+  cases inv with
+  | none => exact probs_nonneg_plain K i
+  | some p => exact probs_nonneg_inv K p (hinv p rfl).1 (hinv p rfl).2.le i
+
+/-- **rates_nonneg** for the Weibull site model -/
+theorem rates_nonneg (K : Nat) (shape : ℝ) (inv mu : Option ℝ) (hinv : InvOk inv) (hmu : MuOk mu) (i) :
+    0 ≤ (weibull K shape inv mu).rates i := by
+  cases inv with
+  | none =>
+    exact rates_nonneg_normalise _ _ mu (fun j => (weibullRaw_pos K shape j).le)
+      (probs_nonneg_plain K) hmu i
+  | some p =>
+    exact rates_nonneg_normalise _ _ mu (weibullRawInv_nonneg K shape)
+      (probs_nonneg_inv K p (hinv p rfl).1 (hinv p rfl).2.le) hmu i
+
+/-- **invariant_rate_zero_prob_p** for the Weibull site model with an invariant category -/
+theorem invariant_rate_zero_prob_p (K : Nat) (shape p : ℝ) (mu : Option ℝ) :
+    (discretizedInv K p (weibullRawInv K shape) mu).rates (0 : Fin (K + 1)) = 0 ∧
+    (discretizedInv K p (weibullRawInv K shape) mu).probs (0 : Fin (K + 1)) = p :=
+  invariant_rate_zero_prob_p_discretizedInv K p _ mu (by simp [weibullRawInv])
+
+/-- the non-invariant categories of a Weibull model have strictly positive rate when `mu > 0`
+(so the invariant category is the only one with rate zero) -/
+theorem weibull_variable_rates_pos (K : Nat) (hK : 0 < K) (shape p : ℝ) (hp : p < 1) (mu : Option ℝ)
+    (hmu : ∀ m ∈ mu, 0 < m) (j : Fin K) :
+    0 < (discretizedInv K p (weibullRawInv K shape) mu).rates (Fin.succ j : Fin (K + 1)) := by
+  have hN := weibull_normaliser_pos_inv K hK shape p hp
+  have hr : 0 < weibullRawInv K shape j.succ / normaliser (weibullRawInv K shape) (probsInv K p) := by
+    apply div_pos _ hN
+    simpa [weibullRawInv] using weibullRaw_pos K shape j
+  cases mu with
+  | none => exact hr
+  | some m => exact mul_pos hr (hmu m rfl)
+
+/-- non-vacuity: the hypotheses are met by a concrete non-trivial instance
+(K = 4, shape = 1/2, invariant proportion 1/5, mu = 2) and the conclusion is the non-trivial `2` -/
+example : (weibull 4 (1 / 2 : ℝ) (some (1 / 5)) (some 2)).meanRate = 2 :=
+  mean_rate 4 (by norm_num) _ _ _ (by intro p hp; cases hp; norm_num)
+
+example : (invariant (1 / 5 : ℝ) (some 3)).meanRate = 3 :=
+  mean_rate_invariant _ _ (by norm_num)
+
+example : InvOk (some (1 / 5)) ∧ MuOk (some 2) ∧ InvOk none ∧ MuOk none := by
+  refine ⟨?_, ?_, ?_, ?_⟩ <;> intro x hx <;> cases hx <;> norm_num
+
+end weibull
+
 end TTProps.C05
